@@ -162,6 +162,12 @@ def streams(rng, tier):
                  rule="aiter allx: array_iter / array_iter_with / map_iter over integers of every width and sign as u8, unrepresentable ones in between: each element is "
                       "its value or its own error, the next element is the next element, the end is the end of the container")
     s2i.shrinkable = False
+    # Int rendered as text (Display of Int and of Token::Int: what the diagnostic notation prints): the decimal number, both ends of the range included
+    sh_ops = [f"intshow {v}" for v in sorted({x for b in gen.boundaries(64) for x in (b, -b, -1 - b, b - 1)} | {-2**64, -2**64 + 1, 2**64 - 1, 0, -1}) if -2**64 <= v <= 2**64 - 1]
+    s2s = Stream("int-as-text", "hcore", sh_ops, model_ops=["nop"] * len(sh_ops),
+                 judge=lambda op, impl, model, spec: "ok" if impl == f"{op.split(' ')[1]} | {op.split(' ')[1]}" else "violation",
+                 rule="intshow: Int::try_from(v) through Display and through Token::Int's Display == the decimal text of v, for every boundary incl. -2^64 and 2^64-1")
+    s2s.shrinkable = False
     # Int <-> primitive conversions: oracle = plain integer arithmetic
     TR = dict({k: v for k, v in RANGE.items() if k != "int"}, u128=(0, 2**128 - 1), i128=(-2**127, 2**127 - 1))
     conv = []
@@ -224,7 +230,7 @@ def streams(rng, tier):
     s4 = Stream("typed-int-impls", "hcore", tops, model_ops=tmops, judge=judge_typed,
                 rule="tdec of usize/isize/NonZero*/Atomic*/Int/the eight fixed types on every (sign,width,argument) head: value iff representable (and non-zero for NonZero), position = head length")
     s4.shrinkable = False
-    return [s1, s2, s2t, s2i, s3, s4]
+    return [s1, s2, s2t, s2i, s2s, s3, s4]
 
 
 DT_ACC = {"u8": "u8", "u16": "u16", "u32": "u32", "u64": "u64", "i8": "i8", "i16": "i16", "i32": "i32", "i64": "i64", "int": "int"}
